@@ -163,15 +163,25 @@ def rule_r1_r2_objects(F, rep):
     if len(oargs) != 2:
         raise kwalk.WalkLimit("extend_object: expected (lhs, rhs)")
     lhs, rhs = oargs
-    seq, clone_dst, P = layer_sequence(F, ext, oargs)
-    got = [(op, sorted(flds), sorted(map(str, other))) for op, (flds, other) in seq]
+    P = prov.Prov(F, body)
+    P.with_base = True
     exp = [("extend-clones", [("super_layers", rhs)], []), ("push-clone", [("self_layer", lhs)], []),
            ("extend-clones", [("super_layers", lhs)], [])]
-    ok = got == exp
-    rep.ob(R1, "extend_object|super-layer-order", ok, {"contributions": [str(g) for g in got], "lhs_arg": lhs, "rhs_arg": rhs})
-    if not ok:
-        rep.violation(R1, "%s|layer-order" % ext.q, "super layers of lhs+rhs are built as %s; concatenation requires %s "
-                      "(arguments: lhs=_%d rhs=_%d)" % (got, exp, lhs, rhs), ext.loc)
+    clone_dst = {}
+    seen_seq = set()
+    for order in cfg_paths(ext):
+        seq, cd, _ = layer_sequence(F, ext, oargs, order, P)
+        clone_dst.update(cd)
+        got = [(op, sorted(flds), sorted(map(str, other))) for op, (flds, other) in seq]
+        if str(got) in seen_seq:
+            continue
+        seen_seq.add(str(got))
+        ok = got == exp
+        rep.ob(R1, "extend_object|super-layer-order|%d" % len(seen_seq), ok,
+               {"contributions": [str(g) for g in got], "lhs_arg": lhs, "rhs_arg": rhs})
+        if not ok:
+            rep.violation(R1, "%s|layer-order" % ext.q, "super layers of lhs+rhs are built as %s; concatenation requires %s "
+                          "(arguments: lhs=_%d rhs=_%d)" % (got, exp, lhs, rhs), ext.loc)
     # the aggregate
     agg = [(bb, s) for bb, si, s in body.assigns() if s["rv"]["k"] == "agg" and s["rv"].get("adt") == OBJ]
     ok_self = False
@@ -627,6 +637,8 @@ def run(F, rep, tier):
     rule_r2_clones(F, rep, R2)
     rule_r3(F, rep)
     rule_r3_merge(F, rep)
+    from . import objflags
+    objflags.rule(F, rep, "C07.R2b")
     rep.assume("layer-index arithmetic (layer_i + depth + 1, super_layers.len() + 1), value-level associativity and "
                "self/super/$ resolution at nesting are not decided")
     rep.trust("Jsonnet specification: field visibility of inherited fields (the right-most explicit visibility wins; default inherits)")
